@@ -331,7 +331,14 @@ where
 
 fn make_abbreviated_namespace(namespace: &str, existing_namespaces: &[Rc<Namespace>]) -> String {
     fn take_three_chars_max(namespace: &str) -> String {
-        namespace.chars().filter(|c| c != &'.').take(3).collect()
+        // the abbreviation becomes an XML prefix and part of a module name: letters and digits only,
+        // and not starting with a digit (or empty, e.g. for a namespace ending in a slash)
+        let abbreviation: String = namespace.chars().filter(char::is_ascii_alphanumeric).take(3).collect();
+        if abbreviation.is_empty() || abbreviation.starts_with(|c: char| c.is_ascii_digit()) {
+            format!("ns{abbreviation}")
+        } else {
+            abbreviation
+        }
     }
 
     let mut append: Option<usize> = None;
